@@ -172,3 +172,20 @@ def guard_facts(ctx, u):
     if key not in ctx._cache:
         ctx._cache[key] = GuardFacts(ctx, u)
     return ctx._cache[key]
+
+
+_FLIP = {'<': '>', '>': '<', '<=': '>=', '>=': '<=', '==': '==', '!=': '!='}
+_NEG = {'<': '>=', '>': '<=', '<=': '>', '>=': '<', '==': '!=', '!=': '=='}
+
+
+def holds_cmp(facts, a, op, b):
+    """is the comparison `a op b` known to hold, whatever way the source spells it (operands flipped, negated branch)?"""
+    a, b = a.replace(' ', ''), b.replace(' ', '')
+    want_true = {a + op + b, b + _FLIP[op] + a}
+    want_false = {a + _NEG[op] + b, b + _FLIP[_NEG[op]] + a}
+    for f in facts or ():
+        if f[0] in ('T', 'F'):
+            t = f[1].replace(' ', '')
+            if (f[0] == 'T' and t in want_true) or (f[0] == 'F' and t in want_false):
+                return True
+    return False
